@@ -17,7 +17,10 @@ import (
 type Server struct {
 	L        net.Listener
 	mu       sync.Mutex
-	verdicts []string // per publish: ok | err | close | closebefore ; exhausted => ok
+	// per publish: ok | err | close | closebefore | down ; exhausted => ok. "down": the
+	// destination is down when the tool wants to publish - no live connection, and the next
+	// connection attempt is cut off before IDENTIFY is answered (consumes the verdict)
+	verdicts []string
 	n        int
 	Accepted [][]byte // bodies answered OK, in order
 	Seen     [][]byte // every body fully received
@@ -40,7 +43,26 @@ func (s *Server) Addr() string { return s.L.Addr().String() }
 func (s *Server) Script(v []string) {
 	s.mu.Lock()
 	s.verdicts, s.n, s.Accepted, s.Seen = v, 0, nil, nil
+	down := len(v) > 0 && v[0] == "down"
+	if down {
+		for _, c := range s.conns {
+			c.Close()
+		}
+		s.conns = nil
+	}
 	s.mu.Unlock()
+}
+
+// Peek returns the verdict the next publish (or connection attempt) will get.
+func (s *Server) Peek() string { return s.peek() }
+
+func (s *Server) peek() string {
+	s.mu.Lock()
+	defer s.mu.Unlock()
+	if s.n < len(s.verdicts) {
+		return s.verdicts[s.n]
+	}
+	return "ok"
 }
 
 func (s *Server) Records() (accepted, seen [][]byte) {
@@ -76,6 +98,12 @@ func (s *Server) accept() {
 			return
 		}
 		s.mu.Lock()
+		if s.n < len(s.verdicts) && s.verdicts[s.n] == "down" {
+			s.n++
+			s.mu.Unlock()
+			c.Close()
+			continue
+		}
 		s.conns = append(s.conns, c)
 		s.mu.Unlock()
 		go s.serve(c)
@@ -144,6 +172,9 @@ func (s *Server) serve(c net.Conn) {
 				frame(c, 1, []byte("E_PUB_FAILED PUB failed"))
 			case "close":
 				return
+			}
+			if s.peek() == "down" {
+				return // the destination goes down right after this publish
 			}
 		case "MPUB":
 			if _, ok := readBody(); !ok {
